@@ -287,6 +287,45 @@ def rule_X9(ctx) -> None:
     fn = mod.func("parse_source_type_name")
     ctx.analysed("parse_source_type_name")
     arg = N(fn.args.args[0].arg)
+    cname = "parse_source_type_name:keeps-nested-components"
+    # by evaluation at distinguished references (protobuf convention, as the function's own documentation states it: packages
+    # are lower case, type names start with a capital): the path each input takes and the pair it returns, computed with the
+    # analyser's evaluator from the terms of E2 - no code of the repository is run
+    from ..concrete import Unknown as _Unk, ev as _cev
+    table = [(".Outer.Inner", ("", "Outer.Inner")), ("Outer.Inner", ("", "Outer.Inner")), (".pkg.Outer.Inner", ("pkg", "Outer.Inner")), (".pkg.sub.Msg", ("pkg.sub", "Msg")),
+             (".Msg", ("", "Msg")), ("Msg", ("", "Msg")), (".a.b.Outer.Mid.Leaf", ("a.b", "Outer.Mid.Leaf")), (".a_1.b2.Msg", ("a_1.b2", "Msg"))]
+    decided = []
+    for text, want in table:
+        try:
+            ps = Interp(mod, bindings={arg: text}, auto_inline=True, fork_ifexp=True).run(fn)
+        except Exception:
+            decided = None
+            break
+        ctx.count(len(ps))
+        taken = []
+        try:
+            for p in ps:
+                if all(bool(_cev(k, {})) == v for k, v in p.valuation.items()):
+                    taken.append(p)
+            if len(taken) != 1 or taken[0].outcome != "return" or taken[0].value is None:
+                decided = None
+                break
+            got = _cev(taken[0].value, {})
+        except (_Unk, Exception):
+            decided = None
+            break
+        decided.append((text, want, tuple(got) if isinstance(got, (tuple, list)) else got))
+    if decided is not None:
+        wrong = [(t_, w_, g_) for t_, w_, g_ in decided if g_ != w_]
+        if wrong:
+            t_, w_, g_ = wrong[0]
+            ctx.refuted("X9", cname, f"{t_}->{g_}", mod.loc(fn),
+                        f"the reference {t_!r} is split into {g_!r} instead of {w_!r}: " + ("only part of the nested type name survives, so the reference is compiled to a class name that "
+                        "differs from the one the type is generated under" if g_[0] == w_[0] else "the package part is wrong, so the reference is resolved against another package"),
+                        f"a field of type {t_}")
+        else:
+            ctx.proved("X9", cname, mod.loc(fn), f"{len(decided)} distinguished references evaluated")
+        return
     paths = Interp(mod, fork_ifexp=True).run(fn)
     ctx.count(len(paths))
     bad = None
@@ -309,7 +348,6 @@ def rule_X9(ctx) -> None:
             bad = bad or show(name)
         else:
             unknown = unknown or show(name)
-    cname = "parse_source_type_name:keeps-nested-components"
     if not n:
         ctx.inconclusive("X9", cname, "no (package, name) return found", mod.loc(fn))
     elif bad:
